@@ -23,6 +23,11 @@ impl IntrospectionDatabase {
         self.entries.len()
     }
 
+    #[cfg(feature = "verif-hooks")]
+    pub(crate) fn verif_entries(&self) -> impl Iterator<Item = (&TypeId, &IntrospectionEntry)> {
+        self.entries.iter()
+    }
+
     pub(crate) fn register(&mut self, type_ids: &HashSet<TypeId>, conn_id: &ConnectionId) {
         for type_id in type_ids {
             self.entries
@@ -146,6 +151,16 @@ impl IntrospectionEntry {
 
             true
         }
+    }
+
+    #[cfg(feature = "verif-hooks")]
+    pub(crate) fn verif_conn_ids(&self) -> (&[ConnectionId], &HashMap<ConnectionId, usize>) {
+        (&self.conn_ids, &self.conn_id_idxs)
+    }
+
+    #[cfg(feature = "verif-hooks")]
+    pub(crate) fn verif_queries(&self) -> impl Iterator<Item = &IntrospectionQuery> {
+        self.queried.iter().chain(self.pending.iter())
     }
 
     pub(crate) fn introspection(&self) -> Option<&SerializedValue> {
